@@ -1,4 +1,5 @@
 """C09 — replacement modes equal the documented manual error-recovery procedure."""
+import os
 from mirlib import *
 from paths import *
 from shape import *
@@ -350,9 +351,287 @@ def dec_wrapper(rep, f, c, fn, inner, errvar, repl):
 
 
 
+def enc_wrapper(rep, f, c, fn, inner):
+    """The encoder wrappers, decided like the decoder wrappers by a ghost-state run of the documented procedure:
+        eff = dst.len() if can_encode_everything() else dst.len() - NCR_EXTRA   (dst.len() < NCR_EXTRA: no conversion at all)
+        inner(self, &src[R..], &mut dst[W..eff], last) -> (k, r, w);  R += r;  W += w;  K = k
+        K = InputEmpty/OutputFull: return (K, R, W, F)
+        K = Unmappable(c): n = write_ncr(c, &mut dst[W..]);  W += n;  F = true;
+                           W >= eff: return (InputEmpty iff R == src.len() and not (last and pending state) else OutputFull, R, W, true)
+                           else call again
+    Ghosts R, W, F, K as for the decoders plus E (the effective length); at the loop head they must be held by locals."""
+    b = f.body(fn)
+    if b is None:
+        rep.undecidable('C09-D1', fn, 'function not found', None, c)
+        return
+    site = sp_str(b.raw['span'])
+    heads = loop_heads(b)
+    if len(heads) != 1:
+        rep.undecidable('C09-D1', fn, 'expected exactly one loop, found %d' % len(heads), site, c)
+        return
+    H = heads[0]
+    SRC, DST, LAST = ('loc', 2), ('loc', 3), ('loc', 4)
+    adt = f.adts.get('EncoderResult')
+    ncr = f.consts.get('NCR_EXTRA', {}).get('int')
+    if adt is None or ncr is None:
+        rep.undecidable('C09-D1', fn, 'EncoderResult / NCR_EXTRA not found', site, c)
+        return
+    ALLK = frozenset(v['name'] for v in adt['variants'])
+    TRUE, FALSE = ('c', 1, 'bool'), ('c', 0, 'bool')
+    LEN_D = ('len', DST)
+
+    def ob(name, ok, msg, at=None, ex=None):
+        return rep.ob('C09-D1.' + name, fn, ok, msg, at or site, ex, c)
+
+    def slice3(e):
+        """&mut dst[lo..hi] -> (lo, hi); &mut dst[lo..] -> (lo, None)"""
+        e0 = _bare(e)
+        ix = index_from(e0)
+        if ix is not None and _bare(ix[0]) == DST:
+            return (ix[1], ix[2] if len(ix) == 3 else None)
+        # dst[..hi][lo..] and the like
+        if ix is not None:
+            inner_ = slice3(ix[0])
+            if inner_ is not None and inner_[0] == C(0) and len(ix) == 2:
+                return (ix[1], inner_[1])
+        return None
+
+    def eff_ok(p, E):
+        """E is the effective length the path's own conditions justify: dst.len() when everything is encodable, dst.len() - NCR_EXTRA otherwise"""
+        cee = [e for e in p.conds() if is_call(e[1], 'Encoding::can_encode_everything') or (e[1][0] == 'call' and (e[1][1] or '').endswith('can_encode_everything'))]
+        if len(cee) != 1 or not isinstance(cee[0][2], bool):
+            return None
+        if cee[0][2] is True:
+            return 'all' if E == LEN_D else False
+        g = fits(p, LEN_D, C(ncr))
+        return 'ncr' if unchecked_sub(E) == ('bin', 'Sub', LEN_D, C(ncr)) and bool(g) and all(g) else False
+
+    def machine(p, g, entry):
+        R, W, F, K, E = g['R'], g['W'], g['F'], g['K'], g['E']
+        poss = set(ALLK)
+        fails = []
+        facts = {'calls': 0, 'ncr': 0, 'returns': set(), 'eff': set(), 'early': 0}
+        after_ncr = False
+
+        def at(e=None):
+            bi = e[3] if e is not None and len(e) > 3 and isinstance(e[3], int) else p.blocks[-1]
+            return sp_str(b.blocks[bi]['tsp'])
+
+        def full_known():
+            """truth of W >= E established on this path (None: not tested)"""
+            out = []
+            for e in p.conds():
+                ce = e[1]
+                if ce[0] == 'bin' and ce[1] in ('Ge', 'Lt', 'Le', 'Gt') and isinstance(e[2], bool):
+                    op_, x_, y_ = ce[1], ce[2], ce[3]
+                    if op_ in ('Le', 'Gt'):
+                        op_, x_, y_ = {'Le': 'Ge', 'Gt': 'Lt'}[op_], y_, x_
+                    if _nf(x_) is not None and _nf(x_) == _nf(W) and E is not None and y_ == E:
+                        out.append((e[2] is True) if op_ == 'Ge' else (e[2] is False))
+            return out[0] if len(out) == 1 else None
+        for e in p.events:
+            if e[0] == 'cond':
+                ce = e[1]
+                if K is None:
+                    continue
+                if ce[0] == 'variant' and _bare(ce[1]) == _bare(K):
+                    names = e[2] if isinstance(e[2], tuple) else (e[2],)
+                    if None in names or 'None' in names:
+                        listed = {variant_of_edge(b, e[3], l_) for l_, _ in switch_edges(b, e[3])} - {None}
+                        poss -= {str(x) for x in listed}
+                    else:
+                        poss &= {str(x) for x in names}
+            elif e[0] == 'call' and e[1] == inner:
+                if K is not None:
+                    fails.append(('one-inner-call', 'a second call of %s is made although the previous result has not been handled' % inner, at(e)))
+                if after_ncr and full_known() is not False:
+                    fails.append(('ncr-arm', 'the conversion is resumed after an NCR without having established total_written < effective_dst_len', at(e)))
+                after_ncr = False
+                args = e[2]
+                lo_s = _slice_from(args[1], SRC)
+                d3 = slice3(args[2])
+                if E is None and d3 is not None and d3[1] is not None and entry:
+                    E = d3[1]
+                    k_ = eff_ok(p, E)
+                    if not k_:
+                        fails.append(('effective-len', 'effective_dst_len is not dst.len() (can_encode_everything) / dst.len() - NCR_EXTRA (otherwise, guarded by '
+                                      'dst.len() >= NCR_EXTRA): %s' % expr_str(E, b)[:80], at(e)))
+                    else:
+                        facts['eff'].add(k_)
+                ok = _bare(args[0]) == ('loc', 1) and lo_s is not None and _nf(lo_s) == _nf(R) and d3 is not None and _nf(d3[0]) == _nf(W) and \
+                    d3[1] is not None and d3[1] == E and args[3] == LAST
+                if not ok:
+                    fails.append(('inner-args', 'the inner call is not (self, &src[total_read..], &mut dst[total_written..effective_dst_len], last): src %s dst %s'
+                                  % (expr_str(args[1], b)[:100], expr_str(args[2], b)[:140]), at(e)))
+                res = ('call', inner, args, e[3])
+                R = ('bin', 'Add', R, tuple_field(res, 1))
+                W = ('bin', 'Add', W, tuple_field(res, 2))
+                K = tuple_field(res, 0)
+                poss = set(ALLK)
+                facts['calls'] += 1
+            elif e[0] == 'call' and e[1] == 'write_ncr':
+                a = e[2]
+                d2 = slice3(a[1])
+                good = K is not None and poss == {'Unmappable'} and a[0] == ('fld', ('as', K, 'Unmappable'), '0') and d2 is not None and d2[1] is None and _nf(d2[0]) == _nf(W)
+                if not good:
+                    fails.append(('ncr-arm', 'write_ncr is not called with the character the inner call reported unmappable and &mut dst[total_written..] '
+                                  '(possible inner results here: %s)' % ('none pending' if K is None else sorted(poss)), at(e)))
+                W = ('bin', 'Add', W, ('call', 'write_ncr', a, e[3]))
+                F = TRUE
+                K = None
+                after_ncr = True
+                facts['ncr'] += 1
+            elif e[0] == 'store':
+                fails.append(('ncr-arm', 'a store outside write_ncr and the inner call: %s' % expr_str(e[1], b)[:80], at(e)))
+        end = p.end
+        if end[0] == 'return':
+            rv = p.env.get(0)
+            v = variant_name(rv[2][0]) if rv is not None and rv[0] == 'agg' and len(rv[2]) == 4 else None
+            if v not in ('InputEmpty', 'OutputFull'):
+                fails.append(('passthrough', 'returns something other than (CoderResult::InputEmpty/OutputFull, read, written, had_unmappables)', at()))
+            elif facts['calls'] == 0 and entry and K is None and not after_ncr:
+                # no conversion at all: only when dst.len() < NCR_EXTRA and not everything is encodable
+                g_ = fits(p, LEN_D, C(ncr))
+                good = rv[2][1:] == (C(0), C(0), FALSE) and bool(g_) and not any(g_) and \
+                    decides_input_empty(p, [(('is_empty', SRC), True), (('bin', 'Eq', ('len', SRC), C(0)), True), (('bin', 'Ne', ('len', SRC), C(0)), False)], LAST, v)
+                if not good:
+                    fails.append(('early-exit', 'an exit without conversion must be (_, 0, 0, false) behind dst.len() < NCR_EXTRA, InputEmpty only for empty input without pending state', at()))
+                else:
+                    facts['early'] += 1
+            elif after_ncr:
+                Rn = R
+                good = full_known() is True and _nf(rv[2][1]) == _nf(R) and _nf(rv[2][2]) == _nf(W) and rv[2][3] == TRUE and \
+                    decides_input_empty(p, [(('bin', 'Eq', x_, y_), True) for x_, y_ in ((Rn, ('len', SRC)), (('len', SRC), Rn))] +
+                                        [(('bin', 'Ne', x_, y_), False) for x_, y_ in ((Rn, ('len', SRC)), (('len', SRC), Rn))] +
+                                        [(ce_[1], pol_) for ce_ in p.conds() for pol_ in ()], LAST, v)
+                # the exhaustion test may be written on the accumulated local or on its value: compare in normal form
+                if not good and full_known() is True and _nf(rv[2][1]) == _nf(R) and _nf(rv[2][2]) == _nf(W) and rv[2][3] == TRUE:
+                    atoms = []
+                    for e_ in p.conds():
+                        ce_ = e_[1]
+                        while ce_[0] == 'un' and ce_[1] == 'Not':
+                            ce_ = ce_[2]
+                        if ce_[0] == 'bin' and ce_[1] in ('Eq', 'Ne'):
+                            for x_, y_ in ((ce_[2], ce_[3]), (ce_[3], ce_[2])):
+                                if y_ == ('len', SRC) and _nf(x_) is not None and _nf(x_) == _nf(R):
+                                    atoms.append((ce_, ce_[1] == 'Eq'))
+                    good = bool(atoms) and decides_input_empty(p, atoms, LAST, v) or (not atoms and decides_input_empty(p, [], LAST, v))
+                if not good:
+                    fails.append(('ncr-arm', 'after an NCR the wrapper may return only when total_written >= effective_dst_len, with (InputEmpty iff the input is exhausted and '
+                                  'not (last and pending state), total_read, total_written, true)', at()))
+                else:
+                    facts['returns'].add('ncr-' + v)
+            else:
+                if K is None or poss != {v}:
+                    fails.append(('passthrough', 'returns %s where the latest inner result can be %s' % (v, 'none' if K is None else sorted(poss)), at()))
+                elif not (_nf(rv[2][1]) == _nf(R) and _nf(rv[2][2]) == _nf(W) and rv[2][3] == F):
+                    fails.append(('passthrough-' + v, 'the %s return is not (CoderResult::%s, everything read, everything written, whether anything was replaced)' % (v, v), at()))
+                else:
+                    facts['returns'].add(v)
+        else:
+            if after_ncr and full_known() is not False:
+                fails.append(('ncr-arm', 'the loop continues after an NCR without having established total_written < effective_dst_len', at()))
+        return {'R': R, 'W': W, 'F': F, 'K': K, 'E': E}, fails, facts
+
+    try:
+        pre = [summarize(b, blks, end) for blks, end in enumerate_block_paths(b, 0, stop=[H])]
+        loop = region_paths(b, H)
+    except OverflowError as e:
+        rep.undecidable('C09-D1', fn, str(e), site, c)
+        return
+    pre = [p for p in pre if p.end[0] != 'diverge']
+    loop = [p for p in loop if p.end[0] != 'diverge']
+    rep.count('paths:' + fn, len(loop) + len(pre))
+    fails0, facts_all, ends = [], [], []
+    for p in pre:
+        g, fl, fa = machine(p, {'R': C(0), 'W': C(0), 'F': FALSE, 'K': None, 'E': None}, True)
+        fails0 += fl
+        facts_all.append(fa)
+        if p.end[0] != 'return':
+            ends.append((p, g))
+    if not ends:
+        ob('init', False, 'no path from the entry reaches the loop')
+        return
+    in_loop = b.reach_from([H])
+    carried = [i for i, l in enumerate(b.locals) if i > b.arg_count and any(d[0] in in_loop for d in b.defs.get(i, [])) and all(i in p.env for p, _ in ends)]
+    cand = {}
+    for X in ('R', 'W'):
+        cand[X] = [l for l in carried if b.locals[l]['ty'] == 'usize' and all(_nf(p.env[l]) == _nf(g[X]) for p, g in ends)]
+    cand['F'] = [l for l in carried if b.locals[l]['ty'] == 'bool' and all(p.env[l] == g['F'] for p, g in ends)]
+    live_k = {g['K'] is not None for _, g in ends}
+    cand['K'] = [None] if live_k == {False} else ([l for l in carried if all(_bare(p.env[l]) == _bare(g['K']) for p, g in ends)] if live_k == {True} else [])
+    # the effective length: a usize local, not assigned in the loop, that holds dst.len() / dst.len() - NCR_EXTRA as the entry path justifies
+    # (when the first call is made before the loop its third index component has been checked there and must be the same local)
+    cand['E'] = []
+    for l, lc in enumerate(b.locals):
+        if l <= b.arg_count or lc['ty'] != 'usize' or any(d[0] in in_loop for d in b.defs.get(l, [])) or not all(l in p.env for p, _ in ends):
+            continue
+        kinds = [eff_ok(p, p.env[l]) for p, _ in ends]
+        if all(kinds) and all(g['E'] is None or g['E'] == p.env[l] for p, g in ends):
+            cand['E'].append((l, frozenset(kinds)))
+    for d in fails0:
+        ob(d[0], False, d[1], d[2])
+    names = {'R': 'the total read so far', 'W': 'the total written so far', 'F': 'the unmappable flag', 'K': 'the pending inner result', 'E': 'the effective destination length'}
+    ob('init', all(cand[X] for X in cand), 'at the loop head no local holds ' + ', '.join(names[X] for X in cand if not cand[X]) +
+       ' (totals and flag must be 0/0/false before the first inner call; effective_dst_len = dst.len() or dst.len() - NCR_EXTRA behind its guard)', None,
+       {X: [(b.locals[l[0] if isinstance(l, tuple) else l].get('name') if l is not None else None) for l in cand[X]] for X in cand})
+    if not all(cand[X] for X in cand):
+        return
+    import itertools
+    best = None
+    for lR, lW, lF, lK, (lE, ekinds) in itertools.product(cand['R'], cand['W'], cand['F'], cand['K'], cand['E']):
+        if len({lR, lW, lE}) < 3:
+            continue
+        gh = {'R': ('init', lR), 'W': ('init', lW), 'F': ('init', lF), 'K': ('init', lK) if lK is not None else None, 'E': ('init', lE)}
+        fails, fas = [], []
+        for p in loop:
+            g, fl, fa = machine(p, gh, False)
+            fails += fl
+            fas.append(fa)
+            if p.end[0] == 'return':
+                continue
+            tsp = sp_str(b.blocks[p.blocks[-1]]['tsp'])
+            bad = []
+            if _nf(p.env.get(lR, ('init', lR))) != _nf(g['R']):
+                bad.append('total read')
+            if _nf(p.env.get(lW, ('init', lW))) != _nf(g['W']):
+                bad.append('total written')
+            if p.env.get(lF, ('init', lF)) != g['F']:
+                bad.append('unmappable flag')
+            if (lK is None) != (g['K'] is None) or (lK is not None and _bare(p.env.get(lK, ('init', lK))) != _bare(g['K'])):
+                bad.append('pending result')
+            if bad:
+                fails.append(('accumulate', 'after this iteration the %s no longer hold%s what the procedure requires (totals accumulate the inner counts and the NCR lengths; '
+                              'the flag becomes true exactly when an NCR is written)' % (', '.join(bad), 's' if len(bad) == 1 else ''), tsp))
+        if best is None or len(fails) < len(best[0]):
+            best = (fails, fas, (lR, lW, lF, lK, lE), ekinds)
+        if not fails:
+            break
+    fails, fas, mp, ekinds = best if best is not None else ([('init', 'no consistent assignment of locals to the totals', site)], [], None, frozenset())
+    seen = set()
+    for d in fails:
+        if d not in seen:
+            seen.add(d)
+            ob(d[0], False, d[1], d[2])
+    allf = facts_all + fas
+    rets = set().union(*[fa['returns'] for fa in allf]) if allf else set()
+    effk = set(ekinds) | set().union(*[fa['eff'] for fa in allf])
+    ob('arms', not fails and not fails0 and {'InputEmpty', 'OutputFull'} <= rets and any(r_.startswith('ncr-') for r_ in rets) and sum(fa['ncr'] for fa in allf) >= 1,
+       'not every result kind is handled: returns %s, NCR arms %d' % (sorted(rets), sum(fa['ncr'] for fa in allf)), None, {'returns': sorted(rets)})
+    ob('effective-len', effk == {'all', 'ncr'}, 'both forms of the effective length (dst.len() when everything is encodable, dst.len() - NCR_EXTRA otherwise) must occur: %s' % sorted(effk),
+       None, {'NCR_EXTRA': ncr})
+    ob('early-exit', sum(fa['early'] for fa in allf) >= 2, 'the dst.len() < NCR_EXTRA exits (InputEmpty for empty input without pending state, OutputFull otherwise) were not both found')
+    if not fails and not fails0:
+        for i, p in enumerate(pre + loop):
+            ob('path', True, 'path %d follows the procedure' % i, sp_str(b.blocks[p.blocks[-1]]['tsp']))
+
+
+
 def wrapper(rep, f, c, fn, inner, errvar, repl, is_enc):
     if not is_enc:
         return dec_wrapper(rep, f, c, fn, inner, errvar, repl)
+    if os.environ.get('VERIF_C09_OLD_ENC') != '1':
+        return enc_wrapper(rep, f, c, fn, inner)
     b = f.body(fn)
     if b is None:
         rep.undecidable('C09-D1', fn, 'function not found', None, c)
